@@ -464,6 +464,9 @@ impl Writer {
                         .map(|f| (f.file().as_raw_fd(), blk.offset + offset, buf.as_slice()))
                 })
                 .collect();
+            for ((blk, offset, _), buf) in write_plan.iter().zip(buffers.iter()) {
+                crate::wal::verif::io_event("write", &blk.file_path, blk.offset + offset, buf.len() as u64);
+            }
             crate::wal::verif::io_event("uring_submit", &self.col, 0, sqes.len() as u64);
             crate::wal::verif::uring_batch_presubmit(&sqes);
         }
